@@ -156,6 +156,13 @@ def main():
             error_msg(str(e))
         sys.exit(-1)
 
+    except OverflowError as e:
+        # a DIMACS file may declare more variables than a list can
+        # hold (p cnf 9223372036854775808 0)
+        with msg_prefix('c '):
+            error_msg("ERROR: the formula is too large: " + str(e))
+        sys.exit(-1)
+
     except InternalBug as e:
         print(str(e), file=sys.stderr)
         sys.exit(-1)
